@@ -173,8 +173,11 @@ class Gen:
         return N('FunctionCallMethod', [first, c, nm, self.args(d)])
 
     def prefixexp(self, d, want=None, allow_paren=True):
-        """Name or ( exp ), then 0-3 suffixes; want = 'var' / 'call' forces the kind of the last suffix"""
-        if allow_paren and self.chance(0.15) and d < self.maxdepth:
+        """Name or ( exp ), then 0-3 suffixes; want = 'var' / 'call' forces the kind of the last suffix.
+        A parenthesised expression followed by a suffix (`(a+b).c`, `(f or g)(x)`) is generated only when
+        'paren_suffix' is allowed (the AST writers cannot write most of these)."""
+        suffix_ok = 'paren_suffix' in self.allow
+        if allow_paren and self.chance(0.15) and d < self.maxdepth and (suffix_ok or want is None):
             self.p.features.add('paren')
             cur = self.paren(d + 1)
             bare = True
@@ -182,12 +185,16 @@ class Gen:
             cur = self.var_simple()
             bare = False
         n = self.rng.choice([0, 0, 1, 1, 2, 3])
-        if want is not None or bare and want is not None:
+        if want is not None:
             n = max(n, 1)
+        if bare and not suffix_ok:
+            n = 0
         if want == 'var' and not bare and self.chance(0.4):
             return cur
         for k in range(n):
             last = (k == n - 1)
+            if bare:
+                self.p.features.add('paren-suffix')
             cur = self.suffix(cur, d, want if last else None)
             if cur[0] == 'N' and cur[1] != TAG['FunctionCall'] and cur[1] != TAG['FunctionCallMethod'] and bare:
                 self.p.features.add('paren-prefix-var')
